@@ -28,7 +28,9 @@ import tlc
 BAD = 9
 ROLES = ("a", "b", "c")
 NPOOL = 8
-TIMEOUT = 120
+TIMEOUT = 60
+MAX_HANGS = 2        # per replay process: after that many hangs the remaining histories are skipped (the hangs are reported)
+_hangs = [0]
 DEV = "NoRollbackOnPartialPush"
 
 
@@ -233,6 +235,7 @@ class Run:
         try:
             r = self.reply.get(timeout=TIMEOUT)
         except queue.Empty:
+            self.hung = True
             raise Hang("no reply within %ds (expected %s)" % (TIMEOUT, "/".join(kinds)))
         return r
 
@@ -331,9 +334,13 @@ class Run:
         finally:
             for qq in list(self.q.values()):
                 qq.put(("abort",))
+            hung = getattr(self, "hung", False)
             for th in self.threads:
-                th.join(timeout=TIMEOUT)
-            pool.shutdown(wait=True)
+                th.join(timeout=1 if hung else TIMEOUT)
+            if hung:        # a stuck worker must not block the whole check: the hang itself is the finding
+                pool.shutdown(wait=False, cancel_futures=True)
+            else:
+                pool.shutdown(wait=True)
             e.pool_var.bind_root(old_pool)
 
 
@@ -344,12 +351,15 @@ def sensitive(hist):
 
 def replay_one(arg):
     idx, hist, k, fs = arg
+    if _hangs[0] >= MAX_HANGS:
+        return idx, k, fs, None, None
     e = env()
     rv = e.roles(k)
     run = Run(e, rv, fs)
     try:
         rec, mismatch = run.execute(hist)
     except Hang as h:
+        _hangs[0] += 1
         return idx, k, fs, None, {"step": -1, "what": "hang", "expected": "every step returns", "observed": str(h)}
     return idx, k, fs, rec, mismatch
 
